@@ -46,6 +46,13 @@ format, `pydjinni__…` environment variables, the `.env` file — and in combin
 precedence. The class is known by construction: the malformed value is in the effective configuration (status 141, the message names the
 key, never a traceback) or a source of higher precedence replaces it (status 0, files generated).
 
+Target orders are a stream (`keyword_order_cases`): programs whose field / parameter / method names are one-word identifiers that the
+live keyword tables reserve in a proper subset of the target languages (some targets refuse the program with 161, the others generate
+it), with every target configured, invoked once per target alone and with the target list in every rotation, reversed and as pairs in both
+orders. Across the invocations of one program: the status of `generate x t1 … tn` is the first non-zero status of `generate x ti` (each a
+process of its own), 0 if there is none, and the files below `out/` are those of the single-target runs up to the first failing one
+(keys `cli:target-order:status`, `cli:target-order:files`); each invocation is also paired with the API sequence like every other.
+
 Specification on the implementation's observations (Lean op `c19.spec` = `specExit`): never a traceback; the exit status is 0
 exactly when the API sequence ran through, otherwise the documented code of its first exception (2 for a command line click
 refuses); the first message names the file and the (line, column) of the first reported error — for a configuration file its decoder
@@ -1377,6 +1384,115 @@ def run_case(base: Path, case: dict) -> dict:
 
 
 # --------------------------------------------------------------------------------------------
+# stream of target orders over identifiers that only some target languages reserve
+# --------------------------------------------------------------------------------------------
+# `generate x.djinni t1 … tn` generates the targets one after the other from ONE parse in ONE process; the documented status is the
+# code of the first failing step. What a target does with a program does not depend on the targets before it: the reference for
+# every multi-target invocation is the set of single-target invocations `generate x.djinni t` of the same workspace, each in its
+# own process. The programs carry one-word identifiers that the live keyword tables reserve in a proper subset of the target
+# languages (so some targets refuse the program with 161 and others generate it), at several sites.
+
+KW_TARGETS = ["cpp", "java", "objc", "cppcli", "yaml"]
+KW_CONFIG = "kwall.yaml"
+KW_SITES = ["field", "param", "method", "two-words"]
+
+
+def subset_reserved_words():
+    """{word: [languages that reserve it]}: one-word lower-case identifiers reserved by a proper non-empty subset of the languages of the
+    live keyword tables and not by the IDL; and the languages"""
+    import re
+    import kwtables
+    kw, idl = kwtables.live_tables(), kwtables.idl_keywords()
+    words = {}
+    for lang, ks in kw.items():
+        for k in ks:
+            if re.fullmatch(r"[a-z][a-z0-9]*", k) and k not in idl:
+                words.setdefault(k, set()).add(lang)
+    return {w: sorted(ls) for w, ls in sorted(words.items()) if len(ls) < len(kw)}, sorted(kw)
+
+
+def keyword_idl(site: str, w: str, w2: str) -> str:
+    if site == "field":
+        return f"kw_rec = record {{ first: string; {w}: i32; }}\n"
+    if site == "param":
+        return f"kw_svc = interface +cpp {{ run_it(first: i32, {w}: string) -> bool; }}\n"
+    if site == "method":
+        return f"kw_svc = interface +cpp {{ first(); {w}(x: i32); }}\n"
+    return f"kw_rec = record {{ {w}: i32; }}\nkw_other = record {{ {w2}: string; }}\n"
+
+
+def keyword_order_cases(ctx) -> list[dict]:
+    """per program: one invocation per target alone, then every rotation of the target list (every target is the first one once), the
+    reversed list and the two orders of a random pair. `case['kworder']` = {group, targets, words, site}"""
+    words, langs = subset_reserved_words()
+    exclusive = {l: [w for w, ls in words.items() if ls == [l]] for l in langs}
+    out = []
+    cfg_text = cfgsys.to_yaml(gen_cfg(list(GEN)))
+    for gi in range(ctx.n(4, 30)):
+        r = random.Random(f"{ctx.seed}/c19/kworder/{gi}") if gi else random.Random("c19/kworder/corpus")
+        lang = langs[(gi + (r.randrange(len(langs)) if gi else langs.index("Java") if "Java" in langs else 0)) % len(langs)]
+        pool = exclusive[lang] or sorted(words)
+        w = r.choice(pool)
+        w2 = r.choice([x for x in words if words[x] != words[w]] or [w])
+        site = KW_SITES[gi % len(KW_SITES)]
+        idl = f"kw{gi}.djinni"
+        files = {idl: keyword_idl(site, w, w2), KW_CONFIG: cfg_text}
+        ts = list(KW_TARGETS)
+        lists = [[t] for t in ts] + [ts[k:] + ts[:k] for k in range(len(ts))] + [ts[::-1]]
+        pair = r.sample(ts, 2)
+        lists += [pair, pair[::-1]]
+        if ctx.quick and gi:
+            lists = lists[:len(ts)] + r.sample(lists[len(ts):], 4)
+        for li, tl in enumerate(lists):
+            c = make_case(idl, KW_CONFIG, OPTION_SETS[0], tl, False)
+            c["files"] = files
+            c["kworder"] = {"group": gi, "targets": tl, "words": {x: words[x] for x in ({w, w2} if site == "two-words" else {w})}, "site": site}
+            c["label"] = f"kworder/{gi}/{li}"
+            out.append(c)
+    return out
+
+
+def evaluate_keyword_orders(ctx, cases, results):
+    """specification across the invocations of one group: status(`generate x t1 … tn`) = the first non-zero status among
+    `generate x t1`, …, `generate x tn` (each in a process of its own) and 0 when there is none; the files below `out/` (the report
+    aside) are those of the single-target invocations up to and including the first failing one"""
+    groups = {}
+    for c, o in zip(cases, results):
+        if c.get("kworder"):
+            groups.setdefault(c["kworder"]["group"], []).append((c, o))
+    for gi, members in sorted(groups.items()):
+        alone = {c["kworder"]["targets"][0]: o for c, o in members if len(c["kworder"]["targets"]) == 1}
+        refusing = sorted(t for t, o in alone.items() if o["rc"] != 0)
+        strip = lambda tree: {p: h for p, h in tree.items() if not p.endswith("report.json")}
+        for c, o in members:
+            ts = c["kworder"]["targets"]
+            if len(ts) == 1 or any(t not in alone for t in ts):
+                continue
+            first = next((t for t in ts if alone[t]["rc"] != 0), None)
+            want_rc = alone[first]["rc"] if first is not None else 0
+            upto = ts[: ts.index(first) + 1] if first is not None else ts
+            want_tree = {}
+            for t in upto:
+                want_tree.update(strip(alone[t]["tree"]))
+            ctx.stat("kworder_multi_target_invocations")
+            ctx.stat("kworder_first_failing_" + ("none" if first is None else "first" if ts[0] == first else "later"))
+            ctx.count(key=json.dumps(["kworder", c["kworder"]["site"], sorted(map(tuple, c["kworder"]["words"].values())), refusing, ts]),
+                      nontrivial=bool(refusing) and len(refusing) < len(alone), sample={"args": c["args"], "rc": o["rc"], "alone": {t: a["rc"] for t, a in alone.items()}})
+            rep = {"args": c["args"], "group": [{k: v for k, v in m.items() if k != "child_env"} for m, _ in members], "member": c["label"],
+                   "alone": {t: a["rc"] for t, a in alone.items()}, "impl": brief(o)}
+            if o["rc"] != want_rc or o["traceback"]:
+                ctx.report("cli:target-order:status",
+                           f"`pydjinni {' '.join(c['args'])}` exits with {o['rc']}; generated one at a time the targets exit with "
+                           f"{ {t: alone[t]['rc'] for t in ts} }, so the first failing step is '{first}' and the documented status {want_rc} "
+                           f"(identifier(s) {c['kworder']['words']} — word: languages that reserve it — at site '{c['kworder']['site']}')", rep)
+            elif strip(o["tree"]) != want_tree:
+                diff = sorted(p for p in set(want_tree) | set(strip(o["tree"])) if want_tree.get(p) != strip(o["tree"]).get(p))
+                ctx.report("cli:target-order:files",
+                           f"`pydjinni {' '.join(c['args'])}` leaves other files below out/ than the single-target invocations of {upto} "
+                           f"(first differing {diff[:4]})", {**rep, "differing": diff[:20]})
+
+
+# --------------------------------------------------------------------------------------------
 # translator
 # --------------------------------------------------------------------------------------------
 
@@ -1493,6 +1609,7 @@ def run(ctx):
     cases += project_cases(ctx)
     cases += option_value_cases(ctx)
     cases += malformed_value_cases(ctx)
+    cases += keyword_order_cases(ctx)
     child_env = ctx.child_env()
     for c in cases:
         c["child_env"] = child_env
@@ -1520,6 +1637,7 @@ def run(ctx):
             breaks.append({"what": "foldOptions (-o texts) vs the options dictionary the texts denote", "args": c["args"], "model": a, "meant": c["sem"]["opt_dict"]})
     for c, o, m, sq, s in zip(cases, results, answers, spec_reqs, specs):
         evaluate(ctx, c, o, m, sq, s, breaks)
+    evaluate_keyword_orders(ctx, cases, results)
     ctx.stats["correspondence_breaks"] = len(breaks)
     if os.environ.get("VERIF_DEBUG"):
         for b in breaks:
@@ -1813,6 +1931,16 @@ def s_first_matches(first, rc) -> bool:
 
 
 def replay(ctx, body):
+    if "group" in body:
+        cases = body["group"]
+        for c in cases:
+            c["child_env"] = ctx.child_env()
+        cfgsys.register("cli", run_case)
+        results = cfgsys.run_pool(ctx.tmp, [("cli", c) for c in cases], workers=8)
+        before = len(ctx.violations) + sum(ctx.known_hits.values())
+        evaluate_keyword_orders(ctx, cases, results)
+        print(json.dumps({"violations": ctx.violations}, indent=1, default=str)[:3000])
+        return len(ctx.violations) + sum(ctx.known_hits.values()) == before
     case = body["case"]
     case["child_env"] = ctx.child_env()
     cfgsys.register("cli", run_case)
